@@ -170,16 +170,36 @@ func runC05(t *testing.T, c *choice.Stream, r *Result, opt RunOpt) {
 	var stream []byte
 	var frames []c05Frame
 	var meths []string
+	writers := map[string]*compress.Writer{}
+	var lastWK string
+	var lastM compress.Method
+	var lastLvl int
 	for i := 0; i < nf; i++ {
 		m := c05Methods[c.Draw("method", len(c05Methods))]
 		lvl := 0
 		if m == compress.LZ4HC {
 			lvl = c.Pick("level", 0, 1, 2, 3, 4, 5, 6, 7, 8, 9, 10, 11, 12, 13, 100)
 		}
-		w := compress.NewWriter(compress.Level(lvl), m)
+		// a connection keeps one compressor and uses it for every frame: writers are
+		// reused within a history (with whatever their buffers have grown to)
+		wk := fmt.Sprintf("%v/%d", m, lvl)
+		if i > 0 && c.Bool("method.same", 1, 2) {
+			wk, m, lvl = lastWK, lastM, lastLvl
+		}
+		w := writers[wk]
+		if w == nil || c.Bool("writer.fresh", 1, 5) {
+			w = compress.NewWriter(compress.Level(lvl), m)
+			writers[wk] = w
+		}
+		lastWK, lastM, lastLvl = wk, m, lvl
 		p := c05Payload(c)
 		if len(p) > 1<<20 && i > 0 {
 			p = p[:1<<16]
+		}
+		if i > 0 && c.Bool("payload.grow", 1, 4) {
+			// slightly longer than the previous payload and incompressible: the
+			// compressor's buffers are just too small for it
+			p = c.Bytes("payload.grow.bytes", len(frames[i-1].payload)+1+c.Draw("payload.grow.by", 24))
 		}
 		if err := w.Compress(p); err != nil {
 			r.Violate("compress-failed", "compress-failed", "Compress of %d bytes with %v failed: %v", len(p), m, err)
